@@ -107,6 +107,10 @@ RULES = [
  ("C19", r"rollback:krigingFactors:.*", "failing krigingFactors leaves the Z locators"),
  ("C19", r".*tessellation_poisson.*", "tessellation_poisson takes a column index for the UID"),
  ("C19", r"success-output-names:dbg2gExpand", "dbg2gExpand ignores its naming convention"),
+ ("C05", r"Vario::getMeans:.*", "Vario::_getStatistics computes the means over all active"),
+ ("C13", r"(gibbs:bounds|pgs:facies-at-data):nburn=0", "AGibbs::_getBoundsDecay stops relaxing the bounds at iter == nburn"),
+ ("C19", r".*MEDIAN.*", "dbStatisticsOnGrid(MEDIAN)"),
+ ("C19", r"pair-final-differs:.*", "KrigingSystem gives the caller's neighborhood back"),
  ("C20", r".*", ""),
 ]
 log = subprocess.check_output(["git", "-C", "/repo", "log", "--format=%h %s"], text=True).splitlines()
